@@ -56,6 +56,7 @@ class Controller:
         self.on_step = None                      # harness hook called by the controller between steps
         self.roles = None                        # optional {id(shared object) | ("pipe", id): role}: primitive events carry roles
         self.pipe_role = None                    # optional callable -> role of a virtual pipe being created
+        self.real_identity = False               # threading.current_thread() of the REAL module = the replaced Thread object
 
     # ------------------------------------------------------------------ thread side
     def me(self):
@@ -66,6 +67,16 @@ class Controller:
         self.threads.append(t)
         def boot():
             self.by_ident[_rt.get_ident()] = t
+            # code under test outside the instrumented module may ask the REAL threading module who it is (`import threading;
+            # threading.current_thread() is scheduler._thread`): inside a managed thread that started as a replaced Thread object
+            # the real module answers with that same object
+            ident, real_self = _rt.get_ident(), None
+            if obj is not None and getattr(self, "real_identity", False):
+                try:
+                    real_self = _rt._active.get(ident)
+                    if real_self is not None: _rt._active[ident] = obj
+                except Exception:
+                    real_self = None
             t.sem.acquire()
             try:
                 if self.killing: raise Kill()
@@ -81,6 +92,7 @@ class Controller:
                 t.origin = "%s:%d" % (tb.tb_frame.f_code.co_filename, tb.tb_lineno) if tb is not None else None
             finally:
                 sys.settrace(None)
+                if real_self is not None: _rt._active[ident] = real_self
                 t.done = True
                 self.ctl.release()
         t.real = _rt.Thread(target=boot, daemon=True)
